@@ -252,7 +252,9 @@ impl Campaign for C14 {
                                     if status == "misbehaving" && !matches!(case.reply, Behaviour::FieldReplaced(..) | Behaviour::MalformedSig(_)) {
                                         fail(&mut rep, "flagged-without-proof", format!("the tower was flagged misbehaving on reply {:?}", reply_class(&case.reply)));
                                     }
-                                    if has_receipt {
+                                    // (a reply whose fields do not match what the tower signed recovers to another key: the tower is
+                                    // flagged, and the receipt that is kept then is the proof of it, not an acknowledgement)
+                                    if has_receipt && !(status == "misbehaving" && !proof.is_null()) {
                                         // a receipt may only be stored if the tower's signature verifies
                                         let rc = p.call("getappointmentreceipt", json!([tower.id_hex(), loc.to_string()]), t).unwrap_or(Value::Null);
                                         let ok = teos_common::receipts::AppointmentReceipt::with_signature(rc["user_signature"].as_str().unwrap_or("").into(), rc["start_block"].as_u64().unwrap_or(0) as u32, rc["signature"].as_str().unwrap_or("").into()).verify(&tower.id);
